@@ -574,11 +574,11 @@ def monitor(log, spec):
 # ----------------------------------------------------------------------------- case construction
 def gen_dev_cases(tier, rng, profile):
     if tier == "quick":
-        n_legal, n_wild, transfers = 44, 12, 30
+        n_legal, n_wild, transfers = 40, 8, 24
     elif tier == "widen":
         n_legal, n_wild, transfers = 160, 16, 40
     else:
-        n_legal, n_wild, transfers = 700, 120, 40
+        n_legal, n_wild, transfers = 420, 60, 40
     out = []
     for k in range(n_legal):
         out.append({"mode": "legal", "profile": profile, "seed": rng.u64(), "transfers": transfers, "k": k})
